@@ -45,4 +45,29 @@ theorem isValid_of_shape {r : Ring} (h : Shape r) {self base alloc : Nat} (h1 : 
   simp only [Bool.and_eq_true, Bool.or_eq_true, bne_iff_ne, beq_iff_eq, decide_eq_true_eq, ne_eq, ge_iff_le]
   exact ⟨⟨⟨⟨⟨h1, h2⟩, a1, a3, decide_eq_true a5⟩, a2, a4, decide_eq_true a6⟩, a7⟩, h3⟩
 
+/-- `head = tail` exactly when nothing is outstanding -/
+theorem Shape.head_eq_tail_iff {r : Ring} (h : Shape r) : r.head = r.tail ↔ r.out = [] := by
+  rcases h with hf | hw
+  · constructor
+    · intro he
+      have hc := hf.1
+      rw [he] at hc
+      exact chain_eq_nil hc
+    · intro hn
+      have hc := hf.1
+      rw [hn] at hc
+      exact hc.symm
+  · obtain ⟨hi, lo, e, ho, _, _, hne, _, hlt⟩ := hw
+    constructor
+    · intro he; omega
+    · intro hn
+      rw [hn] at ho
+      exact absurd (List.append_eq_nil_iff.mp ho.symm).2 hne
+
+theorem isEmpty_iff_of_shape {r : Ring} (h : Shape r) (self base alloc : Nat) :
+    AwsVerif.Gen.Ring.isEmpty (rbOf r self base alloc) = true ↔ r.out = [] := by
+  rw [← h.head_eq_tail_iff]
+  simp only [AwsVerif.Gen.Ring.isEmpty, rbOf, beq_iff_eq]
+  omega
+
 end AwsVerif.Proofs.C15
